@@ -211,8 +211,13 @@ def plot_cases(draw, tier):
     P = draw(st.sampled_from(sizes))
     draw_rank = draw(st.integers(0, P - 1))
     ops = []
+    # complex storage (as the potential and density grids have): the plotting gather sends the real part only;
+    # minima/maxima are not defined for complex data, so those requests become block requests
+    cplx = draw(st.integers(0, 3)) == 0
     for _ in range(draw(st.integers(1, 6))):
         k = draw(st.integers(0, 4))
+        if cplx and k < 3:
+            k = 3
         root = draw(st.integers(0, P - 1))
         if k == 0:
             ops.append({"op": "min", "root": root, "axis": None, "fix": None})
@@ -235,7 +240,7 @@ def plot_cases(draw, tier):
             ops.append({"op": "block", "root": root, "dict": d})
         else:
             ops.append({"op": "setLayout", "to": draw(st.sampled_from(list(sim.STD_LAYOUTS)))})
-    return {"cfg": cfg, "P": P, "drawRank": draw_rank, "plot": plot, "ops": ops,
+    return {"cfg": cfg, "P": P, "drawRank": draw_rank, "plot": plot, "ops": ops, "complex": cplx,
             "layout": draw(st.sampled_from(list(sim.STD_LAYOUTS))), "seed": draw(st.integers(0, 2 ** 16)),
             "eager": draw(st.booleans()), "schedule": draw(gen.schedules(16))}
 
@@ -245,12 +250,14 @@ def _plot_rank(ctx, c):
     cfg = c["cfg"]
     try:
         grid, consts, t = setupCylindricalGrid(layout=c["layout"], comm=ctx.comm, plotThread=c["plot"], drawRank=c["drawRank"],
-                                               **sim.cfg_kwargs(cfg))
+                                               dtype=np.complex128 if c.get("complex") else float, **sim.cfg_kwargs(cfg))
     except RuntimeError as e:
         if "no valid combination of processors" in str(e):
             return ("nogrid", None)
         raise
     F = sim.smooth_noise_field(tuple(cfg["npts"]), c["seed"], noise=1.0)
+    if c.get("complex"):
+        F = F + 1j * sim.smooth_noise_field(tuple(cfg["npts"]), c["seed"] + 5, noise=1.0)
     if grid.getAllData().size:
         sim.fill(grid, F)
     out = []
@@ -341,7 +348,8 @@ def plot_pred(c):
                     raise Violation("C06:plot:non-root", "rank %d received block data although rank %d is the root" % (rk, op["root"]))
     ncoll = max(len(t) for t in w.traces())
     return {"nontrivial": P >= 2 and ncoll >= 3 and (c["plot"] or empty_owner),
-            "labels": ["P=%d" % P, "plot-only-rank" if c["plot"] else "all-compute", "eager" if c["eager"] else "strict"],
+            "labels": ["P=%d" % P, "plot-only-rank" if c["plot"] else "all-compute", "eager" if c["eager"] else "strict",
+                       "complex-grid" if c.get("complex") else "real-grid"],
             "evals": len(c["ops"])}
 
 
